@@ -129,6 +129,40 @@ func settled(ns []*soakNode) bool {
 	return leader
 }
 
+// diverged: every node is up, a leader exists, all nodes have applied up to the same raft index,
+// and yet their metadata differ - not a matter of waiting longer (a restarted node that lost
+// what its snapshot held looks like this)
+func diverged(ns []*soakNode) bool {
+	leader := false
+	var idx uint64
+	var first string
+	differ := false
+	for i, n := range ns {
+		d := n.data()
+		if d == nil {
+			return false
+		}
+		func() {
+			defer func() { recover() }()
+			if n.svc.VerifIsLeader() {
+				leader = true
+			}
+		}()
+		s := coqData(d, false)
+		if i == 0 {
+			idx, first = d.Index, s
+		} else {
+			if d.Index != idx {
+				return false
+			}
+			if s != first {
+				differ = true
+			}
+		}
+	}
+	return leader && differ
+}
+
 // minimal decoder of internal.Response{OK=1 bool, Error=2 string, Index=3 uint64}
 func decodeResponse(b []byte) (errStr string, index uint64, ok bool) {
 	i := 0
@@ -315,6 +349,7 @@ func runSoak(o *hx.Out, d SoakDesc, origin string) {
 	}
 	var steps []soakStep
 	faults, snaps := 0, 0
+ops:
 	for _, op := range d.Ops {
 		switch op.Op {
 		case "cmd":
@@ -363,6 +398,10 @@ func runSoak(o *hx.Out, d SoakDesc, origin string) {
 			faults++
 			o.Count("soak:restart-one")
 			if !waitFor(40*time.Second, func() bool { return settled(ns) }) {
+				if diverged(ns) {
+					o.Count("soak:diverged-after-restart")
+					break ops // conclusive: the finals below disagree
+				}
 				inconclusive("not-settled-after-restart")
 				return
 			}
@@ -384,6 +423,10 @@ func runSoak(o *hx.Out, d SoakDesc, origin string) {
 			faults++
 			o.Count("soak:restart-all")
 			if !waitFor(60*time.Second, func() bool { return settled(ns) }) {
+				if diverged(ns) {
+					o.Count("soak:diverged-after-restart")
+					break ops // conclusive: the finals below disagree
+				}
 				inconclusive("not-settled-after-restart")
 				return
 			}
